@@ -11,7 +11,8 @@ META = {
         "command buffer: append truncates only back to the last *overwritable* record, the offset only stays behind for an overwritable "
         "record, and write hands over exactly the pending records (the send buffer is reset before it is filled); R5 the read task flushes a "
         "lane's sender before switching lanes and feeds every command; R6 the command lane handler runs once per command; R7 every received "
-        "command message reaches CommandOutput::append."),
+        "command message reaches CommandOutput::append. R12 (shared with C10.R13) the command decoder resumes a frame that arrives in pieces; R13 commands written by a handler are handed to the command writer on every path that leaves it (known finding F59)."
+),
     "does_not_decide": "end-to-end exactly-once delivery under a stalled peer over all interleavings",
 }
 
